@@ -711,33 +711,32 @@ def rule_N2(F, R):
 
 
 def rule_T1_sync(F, R):
-    R.begin("T1s", "the sync function commits once, as its last storage or server interaction, and only after sync_complete")
+    R.begin("T1s", "in the sync function every commit is preceded by sync_complete (only the complete after-state is ever committed), is the last storage or server interaction, and no second commit can follow it")
     x = _ctx(F, R)
     if not x.ok:
         return
     c = x.c
-    if len(x.commit) != 1:
-        R.violation("T1s", x.subj, "commit-count", "%d StorageTxn::commit call sites in the sync function" % len(x.commit), where(x.b))
-        return
-    ci, ct = x.commit[0]
-    if c.in_loop(ci):
-        R.violation("T1s", x.subj, "commit-in-loop", "commit is inside a loop", where(x.b, ci))
-    after = c.reachable_after(ci)
-    bad = []
-    for j in after:
-        tt = c.term(j)
-        if tt and tt["k"] == "call":
-            for n in call_names(tt):
-                if n.startswith(TXN + "::") or n.startswith(SERVER + "::"):
-                    bad.append((j, n))
-    if bad:
-        R.violation("T1s", x.subj, "interaction-after-commit", "%s is reachable after commit()" % bad[0][1], where(x.b, bad[0][0]))
-    else:
-        R.ok("T1s", "commit is the last storage/server interaction", where(x.b, ci))
-    if not all(c.dominates(i, ci) for (i, _t) in x.sync_complete):
-        R.violation("T1s", x.subj, "commit-without-sync_complete", "commit is reachable without sync_complete", where(x.b, ci))
-    else:
-        R.ok("T1s", "sync_complete dominates commit", where(x.b, ci))
+    for (ci, ct) in x.commit:
+        key = "commit@%s" % ("after-sync_complete" if any(c.dominates(i, ci) for (i, _t) in x.sync_complete) else "without-sync_complete")
+        if c.in_loop(ci):
+            R.violation("T1s", x.subj, "commit-in-loop", "commit is inside a loop", where(x.b, ci))
+            continue
+        after = c.reachable_after(ci)
+        bad = []
+        for j in after:
+            tt = c.term(j)
+            if tt and tt["k"] == "call":
+                for n in call_names(tt):
+                    if n.startswith(TXN + "::") or n.startswith(SERVER + "::"):
+                        bad.append((j, n))
+        if bad:
+            R.violation("T1s", x.subj, "interaction-after-commit", "%s is reachable after commit()" % bad[0][1], where(x.b, bad[0][0]))
+        else:
+            R.ok("T1s", "commit is the last storage/server interaction", where(x.b, ci))
+        if not any(c.dominates(i, ci) for (i, _t) in x.sync_complete):
+            R.violation("T1s", x.subj, "commit-without-sync_complete", "commit() at %s is reachable without sync_complete: a state that is neither the before- nor the after-state of the sync (base version advanced, pending operations not rebased/marked) would become durable" % loc(ct["sp"]), where(x.b, ci))
+        else:
+            R.ok("T1s", "sync_complete dominates commit", where(x.b, ci))
 
 
 # ---------------------------------------------------------------------------------------
